@@ -220,39 +220,9 @@ def check(prog, rep, tier):
         else:
             rep.undecided('R08.a', key, file=f.file, line=f.node.lineno, found='no returning path')
     rep.floor('R08.a', 'message-level constructors', nmsg, 5)
-    # OPEN: the Opt Parm Len octet equals the size of the optional parameters that follow, on every path
     qo = 'yabgp.message.open.Open.construct'
     if qo in results:
-        fo, outs_o = results[qo]
-        probs = []
-        npo = 0
-        for k, v, st in outs_o:
-            if k != 'val' or not isinstance(v, BytesV):
-                continue
-            items = BL.fields(BL.flatten(v))
-            fl_idx = [i for i, p_ in enumerate(items) if p_[0] == 'field']
-            if len(fl_idx) < 7:
-                continue
-            npo += 1
-            oi = fl_idx[6]                      # H len, B type | B ver, H as, H hold, I id, B optlen
-            if items[oi][1] != 'B':
-                probs.append('the 7th field of the OPEN is %s, expected the 1-octet Opt Parm Len' % items[oi][1])
-                break
-            rest = BL.lf(0)
-            for p_ in items[oi + 1:]:
-                rest = BL.lf_add(rest, BL.item_len(p_, st))
-            want = BL.lin(items[oi][2], st)
-            if want is None or rest is None or not BL.lf_eq_ip(want, rest):
-                probs.append('Opt Parm Len is %s while %s octets of optional parameters follow' % (
-                    items[oi][2].desc()[:60], BL.lf_str(rest) if rest is not None else '?'))
-                break
-        if probs:
-            rep.bad('R08.c', 'open-optlen', file=fo.file, line=fo.node.lineno, func=qo, found=probs[0],
-                    expected='Opt Parm Len = size of the optional parameters built by this call', key='open-optlen')
-        elif npo:
-            rep.ok('R08.c', 'open-optlen', file=fo.file, line=fo.node.lineno, found='%d path(s)' % npo)
-        else:
-            rep.undecided('R08.c', 'open-optlen', file=fo.file, line=fo.node.lineno, found='no symbolic path')
+        open_optlen(rep, 'R08.c', qo, results[qo][0], results[qo][1])
     # route refresh call sites pass 5 / 128
     rr = prog.func('yabgp.message.route_refresh.RouteRefresh.construct_header')
     bgp = prog.func('yabgp.core.protocol.BGP.send_route_refresh')
@@ -376,6 +346,8 @@ def check(prog, rep, tier):
         else:
             rep.undecided('R08.c', key, file=f.file, line=f.node.lineno, found='no returning path')
 
+    common.report_signed_formats(prog, rep, 'R08.c', lambda fn: fn.module.name.startswith('yabgp.message')
+                                 and fn.name.startswith('construct'), 150)
     # ---------------------------------------------------------------- R08.e no element is skipped silently
     nskip = 0
     for f in funcs:
@@ -487,6 +459,39 @@ def stale_accumulators(prog, funcs):
                 if emitted is not None:
                     out.append((f, loop, name, emitted.lineno))
     return out
+
+
+def open_optlen(rep, rule, qo, fo, outs_o):
+    """OPEN: the Opt Parm Len octet equals the size of the optional parameters that follow, on every path."""
+    probs = []
+    npo = 0
+    for k, v, st in outs_o:
+        if k != 'val' or not isinstance(v, BytesV):
+            continue
+        items = BL.fields(BL.flatten(v))
+        fl_idx = [i for i, p_ in enumerate(items) if p_[0] == 'field']
+        if len(fl_idx) < 7:
+            continue
+        npo += 1
+        oi = fl_idx[6]                      # H len, B type | B ver, H as, H hold, I id, B optlen
+        if items[oi][1] != 'B':
+            probs.append('the 7th field of the OPEN is %s, expected the 1-octet Opt Parm Len' % items[oi][1])
+            break
+        rest = BL.lf(0)
+        for p_ in items[oi + 1:]:
+            rest = BL.lf_add(rest, BL.item_len(p_, st))
+        want = BL.lin(items[oi][2], st)
+        if want is None or rest is None or not BL.lf_eq_ip(want, rest):
+            probs.append('Opt Parm Len is %s while %s octets of optional parameters follow' % (
+                items[oi][2].desc()[:60], BL.lf_str(rest) if rest is not None else '?'))
+            break
+    if probs:
+        rep.bad(rule, 'open-optlen', file=fo.file, line=fo.node.lineno, func=qo, found=probs[0],
+                expected='Opt Parm Len = size of the optional parameters built by this call', key='open-optlen')
+    elif npo:
+        rep.ok(rule, 'open-optlen', file=fo.file, line=fo.node.lineno, found='%d path(s)' % npo)
+    else:
+        rep.undecided(rule, 'open-optlen', file=fo.file, line=fo.node.lineno, found='no symbolic path')
 
 
 def header_problems(v, s, want_type):
